@@ -18,7 +18,7 @@ import (
 
 // ConnSpec: the state a connection is brought into before Close is called.
 type ConnSpec struct {
-	State string `json:"state"` // idle | after-panic | midbatch | midmsg | admitted | registered | in-stmt | in-exec | in-parser | pipelined
+	State string `json:"state"` // idle | auth-prompt | after-panic | midbatch | midmsg | admitted | registered | in-stmt | in-exec | in-parser | pipelined
 }
 
 // CloserSpec: one Close caller and the point it is (cooperatively) held at.
@@ -133,6 +133,16 @@ func Run(c Case) (res core.Result) {
 	defer script.SetPointFn(nil)
 
 	cfg := script.Config{Table: table(len(c.Conns)), SetLimit: true, Limit: 4096}
+	var pass *string
+	for _, cs := range c.Conns {
+		if cs.State == "auth-prompt" {
+			// password logins for everybody; this connection stays at its password prompt: nothing of
+			// it has started, Close does not wait for it
+			cfg.Auth = &script.AuthSpec{User: "u", Pass: "pw"}
+			p := "pw"
+			pass = &p
+		}
+	}
 	env := script.Start(cfg)
 	// (env.Stop is not used: Close is the subject of the test)
 	defer func() {
@@ -170,7 +180,12 @@ func Run(c Case) (res core.Result) {
 	for i, cs := range c.Conns {
 		s := env.NewSess()
 		sess[i] = s
-		if st := s.Startup([][2]string{{"user", "u"}}, nil); st.State != memnet.Idle {
+		if cs.State == "auth-prompt" {
+			s.C.Send(pgwire.Startup([][2]string{{"user", "u"}}))
+			s.C.WaitIdle(grace * 4)
+			continue
+		}
+		if st := s.Startup([][2]string{{"user", "u"}}, pass); st.State != memnet.Idle {
 			res.Inconclusive = "startup"
 			return res
 		}
